@@ -28,3 +28,5 @@ python3 tools/derive_unit.py contracts/C27/handler_selection.toml contracts/C33/
   --not-covered "reauth_init (that the session is PrivilegeCapable and its credential id is the one passed here; soft-lock set-up), AuthSession::validate_creds / issue_uat for the Reauth intent (issue_uat: unit privilege_window)"
 python3 tools/derive_unit.py contracts/C02/optimise.toml contracts/C01/optimise.toml C01 optimise 'sem_eq|fr_eq|inner_' \
   --not-covered "Filter::resolve / resolve_idx (SelfUuid resolution, slope annotation) around optimise; see the C01 units for filter2idl and the entry-level test"
+python3 tools/derive_unit.py contracts/C08/consumer_apply.toml contracts/C09/consumer_apply.toml C09 consumer_apply 'applied_ok' \
+  --not-covered "what incremental_apply and the plugins then do; Entry::merge_state's tombstone arms (unit merge_state), the supplier side (unit supplier_supply), reap / trim timing (C26 units); the induction from 'every incoming state is merged and written, none filtered out' to 'no schedule resurrects a deleted entry'"
